@@ -176,24 +176,34 @@ Record fattrs := mkF {
   f_active : Z * Z
 }.
 
-(* an unowned operand as constructed: Fiber(coords, ..., shape=own, active_range=act) with
-   getRankAttrs().setId(id); what it reports: getActive 1487-1509 *)
+(* an operand as constructed: Fiber(coords, ..., shape=own, active_range=act); either unowned
+   with getRankAttrs().setId(id)  (r_owned = None), or the root of the 1-rank tensor
+   Tensor.fromFiber([id], fiber, shape=[s] / None)  (r_owned = Some (Some s) / Some None).
+   What it reports: getRankAttrs().getId() (the rank's id once owned), getActive 1487-1509 *)
 Record rawf := mkR {
   r_id     : atom;
   r_own    : option Z;
   r_act    : option (Z * Z);
-  r_coords : list Z
+  r_coords : list Z;
+  r_owned  : option (option Z)
 }.
 Definition raw_attrs (r : rawf) : fattrs :=
-  let est := match rev (r_coords r) with [] => 0 | c :: _ => c + 1 end in
-  mkF (r_id r)
-      (match r_act r with
-       | Some a => a
-       | None => (0, match r_own r with
-                     | Some s => if Z.eqb s 0 then est else s
-                     | None => est
-                     end)
-       end).
+  match r_owned r with
+  | None =>
+    let est := match rev (r_coords r) with [] => 0 | c :: _ => c + 1 end in
+    mkF (r_id r)
+        (match r_act r with
+         | Some a => a
+         | None => (0, match r_own r with
+                       | Some s => if Z.eqb s 0 then est else s
+                       | None => est
+                       end)
+         end)
+  | Some sh =>
+    let t := ANode (r_own r) (r_act r) (map (fun c => (c, ALeaf 1)) (r_coords r)) in
+    let rs := build_ranks 1 (option_map (fun s => [s]) sh) t in
+    mkF (r_id r) (get_active (fst (nth 0 rs (None, true))) t)
+  end.
 
 Inductive lop :=
 | LAnd | LOr | LXor | LSub | LPop      (* a & b, a | b, a ^ b, a - b, z << a (z first) *)
